@@ -8,8 +8,34 @@ from .. import kspace, kx, space
 from ..common import Run, rotate, run_pool
 
 
+def native_phase(run, pid, tier, seed, stride):
+    """Replays a declared stride of the base-space kernels natively (gcc ASan+UBSan, clang ASan, MCJIT) through the
+    script evaluate; assemble; compute; compute' and compares with the abstract machine: the conformance evidence
+    of this check's own model runs (C06 does the same for the whole base space)."""
+    from .c06 import kernel_specs, nx_units
+
+    base = space.enumerate_programs(2, 3)
+    specs = kernel_specs(base, stride=stride, offset=seed)
+    units = nx_units(specs, {"cap": 12, "deviations": True, "with_ac": True}, "1", "native")
+    print(f"[{pid}] native replay: {len(specs)} kernel requests (every {stride}th of the base space) in {len(units)} "
+          "batches", flush=True)
+    validated = 0
+    for status, res in run_pool("vx.nx", "work", rotate(units, seed)):
+        if status != "ok":
+            run.report({"signature": {"kind": "worker-exception"}, "what": f"harness worker failed: {res}", "case": {}})
+            continue
+        validated += res["validated"]
+        run.counters["native: cases"] += res["cases"]
+        for f in res["findings"]:
+            if f["signature"].get("kind") in ("sanitizer", "native-crash", "native-mismatch", "input-modified", "fault"):
+                f = {**f, "props": sorted(set(f["props"]) | {pid})}
+                run.report(f)
+    run.coverage["native_replay"] = f"every {stride}th kernel of the L<=2,S<=3 space, offset VERIF_SEED"
+    return validated
+
+
 def run_kx(pid, tier, seed, *, oracles, capacities, flavour, rule, assumptions, opts_extra=None,
-           extra_phase=None, nontrivial_rule=None, chunk=32):
+           extra_phase=None, nontrivial_rule=None, chunk=32, native_stride=None):
     run = Run(pid, tier, seed)
     progs = kspace.programs(tier, flavour)
     opts = {"oracles": list(oracles), "pid": pid, "cap": 64 if tier == "quick" else 160,
@@ -28,6 +54,8 @@ def run_kx(pid, tier, seed, *, oracles, capacities, flavour, rule, assumptions, 
             tot[k] += t[k]
     if extra_phase is not None:
         validated += extra_phase(run, tier, seed, tot)
+    if native_stride:
+        validated += native_phase(run, pid, tier, seed, native_stride)
     run.assumptions.extend(assumptions)
     run.coverage["programs"] = len(progs)
     run.coverage["program_space"] = kspace.describe(tier, flavour)
